@@ -183,8 +183,19 @@ func (e *Engine) RunCheck(opt CheckOpts) *CheckResult {
 			}
 		}
 		if n := len(undecided); n > 0 && n <= 8 {
-			for _, u := range undecided {
-				if u.ctx.Retry(sc, u.o, 4) {
+			// all at once: the extra cost on a tree that really breaks a contract stays at one long query
+			ok := make([]bool, n)
+			var wg2 sync.WaitGroup
+			for i, u := range undecided {
+				wg2.Add(1)
+				go func(i int, u und) {
+					defer wg2.Done()
+					ok[i] = u.ctx.Retry(sc, u.o, 3)
+				}(i, u)
+			}
+			wg2.Wait()
+			for i, u := range undecided {
+				if ok[i] {
 					res.Retried = append(res.Retried, u.o.Name)
 				}
 			}
